@@ -99,6 +99,7 @@ func (e *Eng) execFunc(fn *ssa.Function, args []*Val, bindings []*Val, st *State
 			g = e.sc.define(fmt.Sprintf("g_%s_b%d", fn.Name(), b.Index), "Bool", g, "block guard")
 		}
 		fr.guard[b] = g
+		fr.curBlock = b
 		cur := e.mergeStates(ins)
 		// phis
 		var phis []*ssa.Phi
